@@ -130,6 +130,7 @@ TraceHandleEnd ==
     \* (fields that no Trailer header announced may be discarded: RFC 7230 4.1.2)
     /\ (~cfg.streaming \/ eofSeen) => \/ Line.trailers = Expected(script[cur], cur).trailers
                                        \/ (~Announced(script[cur]) /\ Line.trailers = << >>)
+                                       \/ (reqs[cur].partial /\ Line.trailers = << >>)    \* the peer closed inside the trailer section
     /\ Consume /\ KeepAux
 
 \* C04: what a response program must look like on the wire.  A program is
